@@ -73,6 +73,7 @@ def leaf(E, params):
         rec['extra']['work'] = {f'{fam}|{params["k"]}|reads': reads, f'{fam}|{params["k"]}|steps': steps, f'{fam}|{params["k"]}|len': n}
     s = common.sample_of(E, I, o, f' T={cnt["T"]} reads={reads} maxR={maxr} steps={steps}')
     if s: rec['sample'] = s
+    common.add_validation(rec, E, I, o, params)
     return rec
 
 
@@ -99,7 +100,7 @@ def families(tier):
 
 def jobs(tier, seed):
     P = 'C20'; G = ['work']; J = []
-    kw = dict(fn='mirse.props.c20.leaf', validate_every=0)
+    kw = dict(fn='mirse.props.c20.leaf', validate_every=40)
     bud = T(tier, 100, 900)
     J += deepen(P, G, 'req', lambda n: sc('req', n, api='cfg', fl=flags(multi_sp_req='sym'), cap=2), range(T(tier, 6, 5), T(tier, 7, 9) + 1), bud, 'request, every {n}-byte buffer', 6, **kw)
     J += deepen(P, G, 'resp', lambda n: sc('resp', n, api='cfg', fl=flags(multi_sp_resp='sym'), cap=2), range(T(tier, 9, 8), T(tier, 10, 12) + 1), bud, 'response, every {n}-byte buffer', 9, **kw)
